@@ -263,6 +263,20 @@ func (r *run) act(a *arrival, c net.Conn, wmu *sync.Mutex, full []byte, cut int)
 		_ = c.Close()
 		r.finish(a, "")
 		return true
+	case "garbage":
+		// bytes the response decoder fails on (not a response at all); the connection stays open: the proxy has to end
+		// the attempt itself ("upstream connection failure or reset" - here the failure is the peer talking nonsense)
+		g := []byte("HTTP/1.1 2x0 nonsense\r\nContent-Length: abc\r\n\r\n")
+		if r.sc.Proto != "Http1" {
+			g = append([]byte{0x01, 0x09, 0x00, 0x02, 0x01}, make([]byte, 40)...) // bolt magic, a command type that does not exist
+		}
+		wmu.Lock()
+		_ = c.SetWriteDeadline(time.Now().Add(5 * time.Second))
+		_, _ = c.Write(g)
+		wmu.Unlock()
+		r.finish(a, "garbage")
+		<-r.done
+		return true
 	}
 	return false
 }
